@@ -2099,7 +2099,14 @@ fn gen_c08(r: &mut Rng, seed: u64) -> Scenario {
                 _ => (0x6100_0000_0000 + i * 0x100000, 0x4000, "disjoint"),
             };
             let idlen = r.pick_copy(&[16usize, 20]);
-            opts.user_mappings.push(UserMapSpec { start, size, offset: 0, perms: "r-xp".into(), name: Some(B::s(&format!("/user/supplied{}.so", i))), identifier: B(r.bytes(idlen)) });
+            // now and then the supplied name is a path that also exists where the writer runs (a library
+            // with a SONAME that differs from its file name): the caller's name is still to be listed as given
+            let local = if m.base != EXE_BASE && r.chance(1, 3) { Some(m.path.clone()) } else { None };
+            if local.is_some() {
+                push_tags(&mut tags, &["user-name-exists-locally"]);
+            }
+            let name = local.unwrap_or_else(|| format!("/user/supplied{}.so", i));
+            opts.user_mappings.push(UserMapSpec { start, size, offset: 0, perms: "r-xp".into(), name: Some(B::s(&name)), identifier: B(r.bytes(idlen)) });
             push_tags(&mut tags, &[&format!("user-{}", kind)]);
         }
     }
